@@ -41,15 +41,19 @@ def coinsOfWallet (l : List SCoin) (w : Wid) : List SCoin := l.filter (fun c => 
 
 def total (l : List SCoin) (w : Wid) : Nat := ((coinsOfWallet l w).map (·.amt)).sum
 
+/-- the sequence lock of the output's own script: staking (frozen+1) and MASSIP-2 binding:
+    origin + lock − 1 < tip + 1 -/
+def seqOK (tip : Nat) (c : SCoin) : Bool :=
+  match c.cls with
+  | .stk f => decide (c.height + (f + 1) - 1 < tip + 1)
+  | .bindNew _ => decide (c.height + bindingLockedPeriod - 1 < tip + 1)
+  | _ => true
+
 /-- consensus maturity: may the block at height tip+1 spend this coin?
-    coinbase: blocksSincePrev ≥ CoinbaseMaturity;  sequence lock for staking (frozen+1) and for
-    MASSIP-2 binding: origin + lock − 1 < tip + 1. -/
+    coinbase: blocksSincePrev ≥ CoinbaseMaturity (checkTxInMaturity); AND, for every coin, the sequence lock
+    of its script (a staking / binding output of a coinbase needs both). -/
 def spendableAt (p : Params) (tip : Nat) (c : SCoin) : Bool :=
-  if c.cb then decide (tip + 1 - c.height ≥ p.cbMaturity)
-  else match c.cls with
-    | .stk f => decide (c.height + (f + 1) - 1 < tip + 1)
-    | .bindNew _ => decide (c.height + bindingLockedPeriod - 1 < tip + 1)
-    | _ => true
+  (if c.cb then decide (tip + 1 - c.height ≥ p.cbMaturity) else true) && seqOK tip c
 
 def kindOf (c : SCoin) : UClass := uclassOf c.cls
 
@@ -106,7 +110,8 @@ def obsM (sync : Nat) (c : Coin) : CoinObs :=
 
 /-- the spec's GetUtxo item for a coin of the ledger of a chain with tip height `tip` -/
 def obsS (p : Params) (tip : Nat) (c : SCoin) : CoinObs :=
-  ⟨c.tx, c.idx, c.amt, c.height, (if c.cb then p.cbMaturity else c.cls.maturity), tip + 1 - c.height, c.addr⟩
+  ⟨c.tx, c.idx, c.amt, c.height, (if c.cb then max p.cbMaturity c.cls.maturity else c.cls.maturity),
+   tip + 1 - c.height, c.addr⟩
 
 /-- the coins GetUtxo must list for wallet `w` (zero-value outputs are not listed) -/
 def utxosOf (own : Own) (chain : List Block) (w : Wid) : List SCoin :=
